@@ -200,15 +200,17 @@ theorem loadXb_sat (d : Bytes) (sauce : Option (Nat × Nat)) : (loadXb d sauce).
         split
         · exact True.intro
         · apply Sat.bind (rd_sat (by omega)); intro flags _
-          apply Sat.bind (xbPalette_sat d _ _ (by omega)); intro o1 ho1
-          apply Sat.bind (xbFonts_sat d o1 _ _ _ ho1); intro o2 ho2
-          apply Sat.bind (slice_sat (by omega)); intro _ _
-          have hw' : (w : Int) ≤ 4096 := by omega
-          have hh' : (h : Int) ≤ 65535 := by omega
           split
-          · apply Sat.bind (xbCompressed_sat _ _ _ hw' hh' _ 0 ⟨0, 0⟩ _ (by omega) ⟨by decide, by decide, by decide⟩)
-            intro _ _; trivial
-          · apply Sat.bind (xbUncompressed_sat _ _ _ hw' hh' _ 0 ⟨0, 0⟩ _ (by omega) ⟨by decide, by decide, by decide⟩)
-            intro _ _; trivial
+          · exact True.intro
+          · apply Sat.bind (xbPalette_sat d _ _ (by omega)); intro o1 ho1
+            apply Sat.bind (xbFonts_sat d o1 _ _ _ ho1); intro o2 ho2
+            apply Sat.bind (slice_sat (by omega)); intro _ _
+            have hw' : (w : Int) ≤ 4096 := by omega
+            have hh' : (h : Int) ≤ 65535 := by omega
+            split
+            · apply Sat.bind (xbCompressed_sat _ _ _ hw' hh' _ 0 ⟨0, 0⟩ _ (by omega) ⟨by decide, by decide, by decide⟩)
+              intro _ _; trivial
+            · apply Sat.bind (xbUncompressed_sat _ _ _ hw' hh' _ 0 ⟨0, 0⟩ _ (by omega) ⟨by decide, by decide, by decide⟩)
+              intro _ _; trivial
 
 end IcyVerif.Loaders
